@@ -30,6 +30,7 @@ const (
 )
 
 type Clause struct {
+	Trusted bool   // assumed for callers, not proved from the body (listed as an assumption)
 	Text    string // specification source
 	Wrapper string // name of the generated Go function holding the expression
 	Line    int
@@ -61,6 +62,7 @@ type FuncSpec struct {
 	ModAll     bool // "modifies *": anything reachable may change
 	Loops      map[int]*LoopSpec
 	Asserts    map[string][]*Clause // label -> assertions
+	AtCalls    map[string][]*Clause // callee name -> assertions on the arguments at each call
 	Body       string               // spec func body (expression)
 	Arith      string               // "int" (default) or "bv"
 	NoOvf      bool                 // overflow obligations off (assumption recorded)
@@ -82,21 +84,23 @@ func (fs *FuncSpec) allParams() []Param {
 
 // PkgContracts is the parsed contract file of one package.
 type PkgContracts struct {
-	PkgPath string
-	Dir     string
-	PkgName string
-	Funcs   []*FuncSpec
-	ByKey   map[string]*FuncSpec
-	Imports []string // extra import lines
-	Ghosts  []string // ghost package-level variables: "name type"
-	Decls   []string // raw specification-only Go declarations (types)
-	Raw     string
+	PkgPath    string
+	Dir        string
+	PkgName    string
+	Funcs      []*FuncSpec
+	ByKey      map[string]*FuncSpec
+	Imports    []string                                     // extra import lines
+	Ghosts     []string                                     // ghost package-level variables: "name type"
+	Decls      []string                                     // raw specification-only Go declarations (types)
+	IgnorePkgs []string                                     // calls from this package into these packages are ignored
+	atcallVars func(fs *FuncSpec, callee string) []localVar // locals + callee parameters visible to an atcall clause
+	Raw        string
 }
 
 var clauseKeywords = map[string]bool{
 	"func": true, "trusted": true, "pure": true, "inline": true, "ignore": true, "spec": true, "lemma": true, "import": true,
 	"requires": true, "ensures": true, "modifies": true, "loop": true, "arith": true, "overflow": true, "allow_panic": true,
-	"theory": true, "untrusted_input": true, "pragma": true, "assert": true, "note": true, "tparams": true, "ghost": true, "decl": true,
+	"theory": true, "untrusted_input": true, "pragma": true, "assert": true, "note": true, "tparams": true, "ghost": true, "decl": true, "atcall": true, "ignorepkg": true, "trusted_ensures": true,
 }
 
 type rawClause struct {
@@ -174,6 +178,9 @@ func parseHeader(h string) (name string, recv *Param, recvType string, tparams s
 		k := 0
 		for _, f := range fl.List {
 			ty := txt(f.Type)
+			if el, ok := f.Type.(*ast.Ellipsis); ok {
+				ty = "[]" + txt(el.Elt) // wrappers take the packed variadic slice
+			}
 			if len(f.Names) == 0 {
 				ps = append(ps, Param{fmt.Sprintf("%s%d", prefix, k), ty})
 				k++
@@ -277,7 +284,7 @@ func loadContracts(dir, pkgPath string) (*PkgContracts, error) {
 			return nil, fmt.Errorf("%s:%d: %v", path, line, err)
 		}
 		fs := &FuncSpec{Kind: kind, PkgPath: pkgPath, Name: name, RecvName: recvType, Header: header, Recv: recv, TParams: tparams,
-			Params: params, Results: results, Loops: map[int]*LoopSpec{}, Asserts: map[string][]*Clause{}, Body: body, Arith: "int",
+			Params: params, Results: results, Loops: map[int]*LoopSpec{}, Asserts: map[string][]*Clause{}, AtCalls: map[string][]*Clause{}, Body: body, Arith: "int",
 			Pragmas: map[string]string{}, Line: line, File: path}
 		fs.Key = pkgPath + "."
 		if recvType != "" {
@@ -290,6 +297,10 @@ func loadContracts(dir, pkgPath string) (*PkgContracts, error) {
 		switch c.kw {
 		case "import":
 			pc.Imports = append(pc.Imports, c.text)
+			continue
+		case "ignorepkg":
+			pc.IgnorePkgs = append(pc.IgnorePkgs, strings.Trim(strings.TrimSpace(c.text), `"`))
+			cur = nil
 			continue
 		case "decl":
 			pc.Decls = append(pc.Decls, strings.TrimSpace(c.text))
@@ -327,6 +338,8 @@ func loadContracts(dir, pkgPath string) (*PkgContracts, error) {
 				cur.Requires = append(cur.Requires, &Clause{Text: c.text, Line: c.line})
 			case "ensures":
 				cur.Ensures = append(cur.Ensures, &Clause{Text: c.text, Line: c.line})
+			case "trusted_ensures":
+				cur.Ensures = append(cur.Ensures, &Clause{Text: c.text, Line: c.line, Trusted: true})
 			case "modifies":
 				for _, m := range splitTop(c.text) {
 					m = strings.TrimSpace(m)
@@ -371,6 +384,14 @@ func loadContracts(dir, pkgPath string) (*PkgContracts, error) {
 				}
 			case "tparams":
 				cur.TParams = strings.TrimSpace(c.text)
+			case "atcall":
+				// atcall <CalleeName> <expr over caller variables and the callee's parameter names>
+				f := strings.SplitN(strings.TrimSpace(c.text), " ", 2)
+				if len(f) != 2 {
+					return nil, fmt.Errorf("%s:%d: atcall <callee> <expr>", path, c.line)
+				}
+				name := strings.TrimSuffix(f[0], ":")
+				cur.AtCalls[name] = append(cur.AtCalls[name], &Clause{Text: strings.TrimSpace(f[1]), Line: c.line})
 			case "arith":
 				cur.Arith = strings.TrimSpace(c.text)
 			case "overflow":
@@ -522,6 +543,7 @@ func __ite[T any](c bool, a, b T) T     { if c { return a }; return b }
 // genSpecFileX: executable=true emits helper bodies that can run (replay tests) and
 // drops unused imports so that the file compiles.
 func (pc *PkgContracts) genSpecFileX(imports []string, locals func(fs *FuncSpec, loop int) []localVar, executable bool) (string, error) {
+	atcallVars := pc.atcallVars
 	var b strings.Builder
 	fmt.Fprintf(&b, "//go:build verif\n\npackage %s\n\n", pc.PkgName)
 	b.WriteString("/*IMPORTS*/\n")
@@ -607,6 +629,25 @@ func (pc *PkgContracts) genSpecFileX(imports []string, locals func(fs *FuncSpec,
 		for i, c := range fs.Modifies {
 			if err := emit(fmt.Sprintf("__mod_%s_%d", base, i), fs.TParams, pre, "any", c); err != nil {
 				return "", err
+			}
+		}
+		var acNames []string
+		for n := range fs.AtCalls {
+			acNames = append(acNames, n)
+		}
+		sort.Strings(acNames)
+		for _, n := range acNames {
+			var lv []Param
+			lv = append(lv, pre...)
+			if atcallVars != nil {
+				for _, l := range atcallVars(fs, n) {
+					lv = append(lv, Param{l.Name, l.Type})
+				}
+			}
+			for i, c := range fs.AtCalls[n] {
+				if err := emit(fmt.Sprintf("__atcall_%s_%s_%d", base, n, i), fs.TParams, lv, "bool", c); err != nil {
+					return "", err
+				}
 			}
 		}
 		var loops []int
